@@ -65,7 +65,7 @@ func crossv(u, v [3]int64) [3]int64 {
 var halves = []int64{-2, -1, 0, 1, 2, 3, 4} // parameter * 2 : -1, -1/2, 0, 1/2, 1, 3/2, 2
 
 func genSegSeg(t *rapid.T, three bool) (string, [][3]int64) {
-	class := rapid.SampledFrom([]string{"constructed", "constructed", "small-grid", "big-grid", "parallel", "collinear", "degenerate", "touching", "near-parallel-long"}).Draw(t, "class")
+	class := rapid.SampledFrom([]string{"constructed", "constructed", "small-grid", "big-grid", "parallel", "collinear", "degenerate", "touching", "near-parallel-long", "collinear-decimal", "collinear-decimal"}).Draw(t, "class")
 	k := uint(rapid.IntRange(1, 20).Draw(t, "k"))
 	lim := int64(1) << k
 	flat := func(p [3]int64) [3]int64 {
@@ -124,6 +124,23 @@ func genSegSeg(t *rapid.T, three bool) (string, [][3]int64) {
 		return class, [][3]int64{flat(pt(t, l, "a")), flat(pt(t, l, "b")), flat(pt(t, l, "c")), flat(pt(t, l, "d"))}
 	case "big-grid":
 		return class, [][3]int64{flat(pt(t, lim, "a")), flat(pt(t, lim, "b")), flat(pt(t, lim, "c")), flat(pt(t, lim, "d"))}
+	case "collinear-decimal":
+		// two pieces of one oblique line near the origin, apart, touching or overlapping;
+		// genCase divides every ordinate by ten, three, ... : as decimals the four points
+		// are collinear only up to rounding, so the lines are neither parallel nor do they
+		// cross anywhere near, and every sign and parameter computed from them is noise
+		a := flat(pt(t, 64, "a"))
+		u := flat(pt(t, 40, "u"))
+		if u == ([3]int64{}) {
+			u[0] = 3
+		}
+		k1 := rapid.Int64Range(1, 12).Draw(t, "k1")
+		c := addk(a, rapid.Int64Range(-20, 20).Draw(t, "shift"), u)
+		k2 := rapid.Int64Range(1, 12).Draw(t, "k2")
+		if rapid.Bool().Draw(t, "k2neg") {
+			k2 = -k2
+		}
+		return class, [][3]int64{a, addk(a, k1, u), c, addk(c, k2, u)}
 	case "parallel", "collinear":
 		a := flat(pt(t, lim, "a"))
 		u := flat(pt(t, 5, "u"))
@@ -237,7 +254,7 @@ func genCase(t *rapid.T) Case {
 	}
 	// ordinates that are not short binary fractions (decimals, thirds): sums, differences
 	// and parameters that were exact on whole numbers now round
-	if rapid.IntRange(0, 3).Draw(t, "div") == 0 {
+	if rapid.IntRange(0, 3).Draw(t, "div") == 0 || strings.HasPrefix(c.Class, "collinear-decimal") {
 		c.Div = rapid.SampledFrom([]int{10, 10, 3, 7, 100, 1000, 60000}).Draw(t, "divby")
 		c.Class += "+div"
 	}
